@@ -266,6 +266,16 @@ impl GossipNodeState {
     }
 }
 
+/// Total order on health used only to break exact (incarnation, timestamp) ties in `merge`.
+const fn health_severity(health: NodeHealth) -> u8 {
+    match health {
+        NodeHealth::Healthy => 0,
+        NodeHealth::Unknown => 1,
+        NodeHealth::Degraded => 2,
+        NodeHealth::Failed => 3,
+    }
+}
+
 /// Gossip protocol messages.
 #[derive(Debug, Clone, Serialize, Deserialize, PartialEq, Eq)]
 pub enum GossipMessage {
@@ -366,7 +376,12 @@ impl LWWMembershipState {
 
         for state in incoming {
             let should_update = self.states.get(&state.node_id).map_or(true, |existing| {
-                let supersedes = state.supersedes(existing);
+                // On a full tie of incarnation and timestamp the more severe health wins, so
+                // that the merged view does not depend on the order in which updates arrive.
+                let supersedes = state.supersedes(existing)
+                    || (state.incarnation == existing.incarnation
+                        && state.timestamp == existing.timestamp
+                        && health_severity(state.health) > health_severity(existing.health));
                 if supersedes {
                     tracing::debug!(
                         node_id = %state.node_id,
